@@ -219,7 +219,11 @@ pub(crate) fn flatten_one<E: Enc>(e: &E) -> gds_ref::RecList {
     l.0
 }
 fn b2_body<S: Src, E: Enc + core::fmt::Debug>(s: &mut S, mask: u32, slen: usize, npts: usize) {
-    let e = E::sym(s, mask, slen, npts);
+    b2_body_pin::<S, E>(s, mask, slen, npts, 255)
+}
+fn b2_body_pin<S: Src, E: Enc + core::fmt::Debug>(s: &mut S, mask: u32, slen: usize, npts: usize, pin: u8) {
+    let mut e = E::sym(s, mask, slen, npts);
+    e.pin(pin);
     vnote!(s, "elem", "{:?}", e);
     let got = flatten_one(&e);
     let mut want = gds_ref::RecList::new();
@@ -777,6 +781,30 @@ pub fn c02_s_b2_e6_m1026<S: Src>(s: &mut S) {
 pub fn c02_s_b2_e6_m1027<S: Src>(s: &mut S) {
     b2_body::<S, GdsBox>(s, 1027, 1, 2)
 }
+pub fn c02_s_b2_e1_m1507_pt0<S: Src>(s: &mut S) {
+    b2_body_pin::<S, GdsPath>(s, 1507, 1, 2, 0)
+}
+pub fn c02_s_b2_e1_m1507_pt1<S: Src>(s: &mut S) {
+    b2_body_pin::<S, GdsPath>(s, 1507, 1, 2, 1)
+}
+pub fn c02_q_b2_e1_m1507_pt2<S: Src>(s: &mut S) {
+    b2_body_pin::<S, GdsPath>(s, 1507, 1, 2, 2)
+}
+pub fn c02_s_b2_e1_m1507_pt4<S: Src>(s: &mut S) {
+    b2_body_pin::<S, GdsPath>(s, 1507, 1, 2, 4)
+}
+pub fn c02_s_b2_e4_m1663_pt0<S: Src>(s: &mut S) {
+    b2_body_pin::<S, GdsTextElem>(s, 1663, 1, 2, 0)
+}
+pub fn c02_s_b2_e4_m1663_pt1<S: Src>(s: &mut S) {
+    b2_body_pin::<S, GdsTextElem>(s, 1663, 1, 2, 1)
+}
+pub fn c02_s_b2_e4_m1663_pt2<S: Src>(s: &mut S) {
+    b2_body_pin::<S, GdsTextElem>(s, 1663, 1, 2, 2)
+}
+pub fn c02_s_b2_e4_m1663_pt4<S: Src>(s: &mut S) {
+    b2_body_pin::<S, GdsTextElem>(s, 1663, 1, 2, 4)
+}
 pub fn c02_t_b2_lib_1x1_k3_m2047<S: Src>(s: &mut S) {
     b2_lib_body(s, 1, 1, 3, 2047)
 }
@@ -970,6 +998,14 @@ harnesses! { k, "sel_gds21_write.rs";
     #[kani::stub(std::str::from_utf8, from_utf8_model)] #[kani::stub(crate::data::GdsFloat64::encode, enc_bits)] #[kani::stub(crate::data::GdsFloat64::decode, dec_bits)] #[kani::stub(alloc::fmt::format, fmt_stub)] #[kani::unwind(22)] c02_s_b2_e6_m1025;
     #[kani::stub(std::str::from_utf8, from_utf8_model)] #[kani::stub(crate::data::GdsFloat64::encode, enc_bits)] #[kani::stub(crate::data::GdsFloat64::decode, dec_bits)] #[kani::stub(alloc::fmt::format, fmt_stub)] #[kani::unwind(22)] c02_s_b2_e6_m1026;
     #[kani::stub(std::str::from_utf8, from_utf8_model)] #[kani::stub(crate::data::GdsFloat64::encode, enc_bits)] #[kani::stub(crate::data::GdsFloat64::decode, dec_bits)] #[kani::stub(alloc::fmt::format, fmt_stub)] #[kani::unwind(22)] c02_s_b2_e6_m1027;
+    #[kani::stub(std::str::from_utf8, from_utf8_model)] #[kani::stub(crate::data::GdsFloat64::encode, enc_bits)] #[kani::stub(crate::data::GdsFloat64::decode, dec_bits)] #[kani::stub(alloc::fmt::format, fmt_stub)] #[kani::unwind(22)] c02_s_b2_e1_m1507_pt0;
+    #[kani::stub(std::str::from_utf8, from_utf8_model)] #[kani::stub(crate::data::GdsFloat64::encode, enc_bits)] #[kani::stub(crate::data::GdsFloat64::decode, dec_bits)] #[kani::stub(alloc::fmt::format, fmt_stub)] #[kani::unwind(22)] c02_s_b2_e1_m1507_pt1;
+    #[kani::stub(std::str::from_utf8, from_utf8_model)] #[kani::stub(crate::data::GdsFloat64::encode, enc_bits)] #[kani::stub(crate::data::GdsFloat64::decode, dec_bits)] #[kani::stub(alloc::fmt::format, fmt_stub)] #[kani::unwind(22)] c02_q_b2_e1_m1507_pt2;
+    #[kani::stub(std::str::from_utf8, from_utf8_model)] #[kani::stub(crate::data::GdsFloat64::encode, enc_bits)] #[kani::stub(crate::data::GdsFloat64::decode, dec_bits)] #[kani::stub(alloc::fmt::format, fmt_stub)] #[kani::unwind(22)] c02_s_b2_e1_m1507_pt4;
+    #[kani::stub(std::str::from_utf8, from_utf8_model)] #[kani::stub(crate::data::GdsFloat64::encode, enc_bits)] #[kani::stub(crate::data::GdsFloat64::decode, dec_bits)] #[kani::stub(alloc::fmt::format, fmt_stub)] #[kani::unwind(22)] c02_s_b2_e4_m1663_pt0;
+    #[kani::stub(std::str::from_utf8, from_utf8_model)] #[kani::stub(crate::data::GdsFloat64::encode, enc_bits)] #[kani::stub(crate::data::GdsFloat64::decode, dec_bits)] #[kani::stub(alloc::fmt::format, fmt_stub)] #[kani::unwind(22)] c02_s_b2_e4_m1663_pt1;
+    #[kani::stub(std::str::from_utf8, from_utf8_model)] #[kani::stub(crate::data::GdsFloat64::encode, enc_bits)] #[kani::stub(crate::data::GdsFloat64::decode, dec_bits)] #[kani::stub(alloc::fmt::format, fmt_stub)] #[kani::unwind(22)] c02_s_b2_e4_m1663_pt2;
+    #[kani::stub(std::str::from_utf8, from_utf8_model)] #[kani::stub(crate::data::GdsFloat64::encode, enc_bits)] #[kani::stub(crate::data::GdsFloat64::decode, dec_bits)] #[kani::stub(alloc::fmt::format, fmt_stub)] #[kani::unwind(22)] c02_s_b2_e4_m1663_pt4;
     #[kani::stub(std::str::from_utf8, from_utf8_model)] #[kani::stub(crate::data::GdsFloat64::encode, enc_bits)] #[kani::stub(crate::data::GdsFloat64::decode, dec_bits)] #[kani::stub(alloc::fmt::format, fmt_stub)] #[kani::unwind(60)] c02_t_b2_lib_1x1_k3_m2047;
     #[kani::stub(std::str::from_utf8, from_utf8_model)] #[kani::stub(crate::data::GdsFloat64::encode, enc_bits)] #[kani::stub(crate::data::GdsFloat64::decode, dec_bits)] #[kani::stub(alloc::fmt::format, fmt_stub)] #[kani::unwind(60)] c02_t_b2_lib_2x2_k0_m2047;
     #[kani::stub(std::str::from_utf8, from_utf8_model)] #[kani::stub(crate::data::GdsFloat64::encode, enc_bits)] #[kani::stub(crate::data::GdsFloat64::decode, dec_bits)] #[kani::stub(alloc::fmt::format, fmt_stub)] #[kani::unwind(60)] c02_t_b2_lib_2x2_k3_m0;
